@@ -54,6 +54,8 @@ type Contract struct {
 	Modifies []*Clause
 	Layer    string
 	Inline   bool
+	Counts   string
+	FrameDischarged bool // only the frame (modifies) was discharged in this run: usable without its ensures
 	Props    []string
 	Line     int
 	id       string
@@ -66,7 +68,7 @@ type Contract struct {
 }
 
 func (c *Contract) Usable() bool {
-	return c != nil && (c.Discharged || len(c.DischargedBits) > 0) && !c.Inline
+	return c != nil && (c.Discharged || len(c.DischargedBits) > 0 || c.FrameDischarged) && !c.Inline
 }
 
 type LoopSpec struct {
@@ -79,6 +81,7 @@ type LoopSpec struct {
 }
 
 type ContractFile struct {
+	Imports   []string
 	Fields    map[string]map[string]bool
 	Path      string
 	PkgName   string
@@ -258,6 +261,8 @@ func parseContractFile(path string) (*ContractFile, error) {
 					cur.Modifies = append(cur.Modifies, cl)
 				}
 			}
+		case "import":
+			cf.Imports = append(cf.Imports, strings.Trim(rest, "\""))
 		case "fields":
 			// fields <Type> <field>...: the fields of a struct type the contracts know
 			// about.  Any other field is "unmodelled": never frame-checked (no property
@@ -273,6 +278,8 @@ func parseContractFile(path string) (*ContractFile, error) {
 					cf.Fields[f[0]][n] = true
 				}
 			}
+		case "counts":
+			cur.Counts = strings.TrimPrefix(rest, "g.") // ghost call counter bumped by every call
 		case "inline":
 			cur.Inline = true // verified, but callers see the body (constructors returning fresh objects)
 		case "layer":
@@ -376,6 +383,9 @@ func (c *Contract) predParams(withResults bool, loop *LoopSpec) string {
 func (cf *ContractFile) generate(ghostInPkg bool) (string, error) {
 	var sb strings.Builder
 	fmt.Fprintf(&sb, "// Code generated by vcheck from %s. DO NOT EDIT.\n\npackage %s\n\n", filepath.Base(cf.Path), cf.PkgName)
+	for _, im := range cf.Imports {
+		fmt.Fprintf(&sb, "import %q\n", im)
+	}
 	for ci, c := range cf.Contracts {
 		c.PkgName = cf.PkgName
 		c.id = fmt.Sprintf("%d_%s", ci, sanitize(c.Key))
